@@ -72,6 +72,8 @@ def build_result(case):
     for e, l, v, ys in case["evals"]:
         for i, y in enumerate(ys, 1):
             ints.append([e, l, v, i, reward(case, y)] + ([100 * e + 10 * l + v + 1000 * i] if case.get("extra") else []))
+    if case.get("rev"):
+        ints[1:] = ints[:0:-1]          # rows handed over in reverse order: Result.__init__ has to index them
     return Result(envs, lrns, vals, ints)
 
 
@@ -524,8 +526,10 @@ class C18(Property):
     search_n = 3000
     case_timeout = 60
     workers = 8
-    rule = ("Results with 1-4 environments (duplicate parameter values, mixed value types), 1-3 learners, 1-2 evaluators, missing "
-            "triples, ragged lengths 1-7, small integer rewards; chains of 1-3 steps of where_fin (n in None/'min'/0/k, l and p ids, "
+    rule = ("Results with 1-4 environments (8%: 5-9 environments, 2-4 learners, 1-3 evaluators, lengths up to 27, ids up to 39; "
+            "duplicate parameter values; value types str/int/None/bool/float/''/tuple and, rarely, frozenset), 1-3 learners, "
+            "1-2 evaluators, missing triples, ragged lengths 1-7, rewards small ints (also 0/1, bool, dyadic floats), rows "
+            "sometimes handed to the constructor in reverse order; chains of 1-4 steps of where_fin (n in None/'min'/0/k, l and p ids, "
             "parameter columns, lists, swapped roles), where, where_best, raw_learners (x index/parameter columns, span None/0..6, "
             "p None or given); plus direct moving_average calls (all spans, weights None/'exp'/list incl. zeros). Every step is "
             "checked from the real code's own pre-state. Non-trivial = a where_fin step that removed or cut something but kept "
@@ -540,7 +544,10 @@ class C18(Property):
     ]
     assumptions = [
         "interaction index column is 1..len within every evaluation (what TransactionResult and from_logged_envs produce)",
-        "ids are unique within a parameter table; l and p are both given or both None, and name id or parameter columns",
+        "ids are unique within a parameter table; l and p are both given or both None, and name id or parameter columns "
+        "(or full_name); a level value equal to the string 'x' (the name of raw_learners' own first column) is not generated",
+        "span=0 with x='index' (mean of the last 0 values), windows of total weight 0, a violated weights-length assert and "
+        "'exp' with span<1 are outside the statement (undefined textbook value): nothing is compared there",
         "where_fin(n=k) is read as DESIGN §C18 does: pairing first, then evaluations shorter than k are dropped (which may leave a group incomplete)",
     ]
     partial_theorems = {
@@ -597,6 +604,8 @@ class C18(Property):
         evals = rng.shuffle(evals) if rng.chance(0.5) else evals
         case = {"kind": "res", "env_cols": env_cols, "lrn_cols": lrn_cols, "val_cols": val_cols,
                 "envs": rng.shuffle(envs), "lrns": rng.shuffle(lrns), "vals": vals, "evals": evals, "extra": rng.chance(0.3)}
+        if rng.chance(0.15):
+            case["rev"] = True
         rk = rng.choice([None, None, None, None, "bin", "bool", "dyadic"])
         if rk:
             case["rk"] = rk
@@ -735,6 +744,12 @@ class C18(Property):
         cs.append(dict(base, vals=[[0]], evals=[[0, 0, 0, [1, 2]], [1, 0, 0, [3, 4]], [2, 0, 0, [1, 1]], [2, 1, 0, [2, 2]]],
                        steps=[{"op": "where_fin", "n": None, "l": "learner_id", "p": "data"},
                               {"op": "raw_learners", "x": "index", "l": "learner_id", "p": "data", "span": None}]))
+        # C18-F2 shapes: partially ordered (frozenset) parameter values as pairing key / as label
+        fsb = dict(base, lrn_cols=[], lrns=[[0]], vals=[[0]], envs=[[0, {"fs": [1]}], [1, {"fs": [2]}], [2, {"fs": [1]}]])
+        cs.append(dict(fsb, evals=[[0, 0, 0, [1]], [1, 0, 0, [1]], [2, 0, 0, [1]]],
+                       steps=[{"op": "where_fin", "n": None, "l": "learner_id", "p": "data"}]))
+        cs.append(dict(fsb, evals=[[0, 0, 0, [1]], [1, 0, 0, [1, 3]], [2, 0, 0, [5, 2]]],
+                       steps=[{"op": "raw_learners", "x": "index", "l": "data", "p": None, "span": None}]))
         # complete / equal lengths / ragged / empty
         full = [[e, l, 0, [e + l + i for i in range(3 + (e == 1))]] for e in (0, 1, 2) for l in (0, 1)]
         for n in (None, "min", 0, 1, 3, 4, 5):
@@ -1110,6 +1125,9 @@ class C18(Property):
                     yield dict(case, **{name: rows[:k] + rows[k + 1:]})
         if case.get("extra"):
             yield dict(case, extra=False)
+        for flag in ("rev", "rk"):
+            if case.get(flag):
+                yield {k: v for k, v in case.items() if k != flag}
         for k in range(len(evals)):
             e = evals[k]
             if any(y != 1 for y in e[3]):
@@ -1138,6 +1156,7 @@ class C18(Property):
                  "ints = [['environment_id','learner_id','evaluator_id','index','reward'%s]]" % (",'z'" if case.get("extra") else ""),
                  "for e,l,v,ys in %r:" % (case["evals"],),
                  "    for i,y in enumerate(ys,1): ints.append([e,l,v,i,%s]%s)" % ({"bin": "y%2", "bool": "bool(y%2)", "dyadic": "y/4"}.get(case.get("rk"), "y"), "+[100*e+10*l+v+1000*i]" if case.get("extra") else ""),
+                 "ints[1:] = ints[:0:-1]" if case.get("rev") else "pass",
                  "base = r = Result(%r, %r, %r, ints)" % (envs, lrns, vals)]
         for st in case["steps"]:
             if st.get("as_tuple"):
